@@ -100,6 +100,7 @@ bool exec_arith(ExecCtx &c) {
               }
               store_result(c, dst, std::move(*res));
             };
+            sim::g_cur->note = same ? 2 : 1;
             if (op.kind == OP_P_MUL) {
               std::optional<Sp<kx + ky>> res;
               libcall(out, [&] { res.emplace(x * y); });
@@ -154,6 +155,7 @@ bool exec_arith(ExecCtx &c) {
                 }
               }
               int dk = grid_diff_kind(x.getSupport().getGrid(), y.getSupport().getGrid());
+              sim::g_cur->note = same ? 2 : 1;
               libcall(out, [&] {
                 if (op.kind == OP_P_IADD) x += y;
                 else x -= y;
@@ -197,6 +199,7 @@ bool exec_arith(ExecCtx &c) {
 #ifdef SIM_EXACT
             Fn fx = fn_of(x);
 #endif
+            sim::g_cur->note = 2;
             libcall(out, [&] {
               switch (op.kind) {
                 case OP_P_SCALE: res.emplace(x * s); break;
@@ -246,6 +249,7 @@ bool exec_arith(ExecCtx &c) {
             Fn fx = fn_of(x);
             Val sval = sp->raw();
 #endif
+            sim::g_cur->note = 2;
             libcall(out, [&] {
               if (op.kind == OP_P_ISCALE) x *= *sp;
               else x /= *sp;
@@ -311,6 +315,7 @@ bool exec_arith(ExecCtx &c) {
               for (size_t i = 0; i < sv.size(); i++) expect = fn_add(expect, fn_scale(fn_of(sv[i]), cs[i].raw()));
 #endif
             std::optional<S> res;
+            if (!mismatch) sim::g_cur->note = differ ? 1 : 2;
             libcall(out, [&] {
               if (op.d % 2) res.emplace(bspline::linearCombination(cs, sv));
               else res.emplace(bspline::linearCombination(cs.begin(), cs.end(), sv.begin(), sv.end()));
